@@ -331,6 +331,13 @@ def r2_obligations(facts, mut):
     setters = set()
     for sset in owned.values():
         setters |= sset
+    def owner_name(fn_):
+        """a file-local helper with a single calling function is reported under that function: moving a block of a function into a
+        static helper does not change which store is meant"""
+        if fn_.d.get('linkage_external', True) or '::' in fn_.name:
+            return fn_.name
+        callers = {g.name for g in facts.all_fns() if g.tree is not None and g.name != fn_.name and any(callee_name(x) == fn_.name for x in calls_in(g.tree))}
+        return sorted(callers)[0] if len(callers) == 1 else fn_.name
     for key, (fn, via) in sorted(reach.items()):
         if fn.name in setters or fn.d.get('ctor') or key in helper:
             continue
@@ -391,7 +398,7 @@ def r2_obligations(facts, mut):
                 src = str(const_of(rhs))
             else:
                 src = ','.join(sorted({y['n'] for y in walk(rhs) if isinstance(y, dict) and y.get('k') == 'MemberExpr'})) or show(rhs)
-            obls.append(Obl('C18.R2', fn.name, construct, st['loc'], 'discharged' if ok else 'finding', why=why,
+            obls.append(Obl('C18.R2', owner_name(fn), construct, st['loc'], 'discharged' if ok else 'finding', why=why,
                             detail={'field': f, 'setters': sorted(owned[f]), 'reached_from': via, 'rhs': show(rhs) if rhs else op},
                             ident='store %s <- %s' % (f, src)))
         # calls of setter helpers from reset/load paths: argument must derive from the setting
@@ -789,7 +796,26 @@ def r9_index_validated(facts):
         idx = [p for p in fn.params if 'Number' in (p.get('n') or '') or 'umber' in (p.get('n') or '')]
         if not idx:
             continue
-        fails = [(b, j, st) for b, j, st in fn.cfg.returns() if (const_of(st['s'].get('e')) or 0) < 0]
+        # the failing outcomes with the facts they happen under: `return -1`, `result = -1` into the local the function returns,
+        # `return c ? 0 : -1`
+        ret_ids = {strip(st_['s']['e']).get('id') for b_, j_, st_ in fn.cfg.returns() if st_['s'].get('e') is not None and strip(st_['s']['e']).get('k') == 'DeclRefExpr'}
+        fail_facts = []
+        for b_, j_, st_ in fn.cfg.returns():
+            e_ = strip(st_['s'].get('e')) if st_['s'].get('e') is not None else None
+            if e_ is None:
+                continue
+            if (const_of(e_) or 0) < 0:
+                fail_facts.append(guard_facts(fn, b_, st_))
+            elif e_.get('k') == 'ConditionalOperator':
+                for arm, pol in ((e_['l'], True), (e_['r'], False)):
+                    if (const_of(arm) or 0) < 0:
+                        fail_facts.append(guard_facts(fn, b_, st_) + literals(e_['cnd'], pol))
+        for b_, j_, st_ in fn.cfg.stmts():
+            for y in walk(st_['s']):
+                ap_ = assign_parts_raw(y) if isinstance(y, dict) else None
+                if ap_ and ap_[2] == '=' and strip(ap_[0]).get('id') in ret_ids and (const_of(ap_[1]) or 0) < 0:
+                    fail_facts.append(guard_facts(fn, b_, st_))
+        sd_fn = single_defs(fn.d)
         for b, j, st in fn.cfg.stmts(conds=True):
             for x in calls_in(st['s']):
                 cn = callee_name(x)
@@ -798,15 +824,14 @@ def r9_index_validated(facts):
                 n += 1
                 cf = facts.fns.get(cn, [None])[0]
                 nonvoid = cf is not None and (cf.d.get('ret') or {}).get('s') not in (None, 'void')
-                checked = any(any(short(callee_name(y)) == short(cn) for f in guard_facts(fn, fb, fst) for y in walk(f[1] if f[0] == 'truth' else [f[2], f[3]] if f[0] == 'cmp' else []) if isinstance(y, dict) and 'callee' in y)
-                              for fb, fj, fst in fails)
-                if not checked and nonvoid:
-                    # `bool ok = seq.f(n); if(!ok) return -1;`
-                    for b2, j2, st2 in fn.cfg.stmts():
-                        if st2['s'].get('k') == 'DeclStmt':
-                            for v in st2['s']['decls']:
-                                if v.get('init') is not None and any(y is x for y in walk(v['init'])):
-                                    checked = any(any(f[0] == 'truth' and strip(f[1]).get('id') == v['id'] for f in guard_facts(fn, fb, fst)) for fb, fj, fst in fails)
+                def about_call(f):
+                    es = [f[1]] if f[0] == 'truth' else ([f[2], f[3]] if f[0] == 'cmp' else [])
+                    for e_ in es:
+                        for y in walk(subst(e_, sd_fn)):        # the result may have a name
+                            if isinstance(y, dict) and 'callee' in y and short(callee_name(y)) == short(cn):
+                                return True
+                    return False
+                checked = any(any(about_call(f) for f in ff) for ff in fail_facts)
                 ok = nonvoid and checked
                 out.append(Obl('C18.R9', fn.name, '%s(%s)' % (short(cn), idx[0].get('n')), st['loc'], 'discharged' if ok else 'finding',
                                why='the method can refuse and the refusal becomes the error return' if ok else
@@ -936,7 +961,8 @@ def r11_dumper_overrides(facts):
                    'partialReset rebuilds the synth with the live chip count, which the VGM dumper has clamped to 2: after switching to another emulator opn2_getNumChipsObtained stays 2 although the accepted count is larger'))
     n = 0
     for fn in facts.all_fns():
-        if not fn.name.startswith('OPNMIDIplay::') or fn.tree is None:
+        # member functions of the player and the file-local helpers next to them
+        if fn.tree is None or not (fn.name.startswith('OPNMIDIplay::') or fn.relfile() in ('src/opnmidi_midiplay.cpp', 'src/opnmidi_load.cpp', 'src/opnmidi.cpp')):
             continue
         forced = []
         restored = []
